@@ -258,3 +258,141 @@ Lemma window_ok_2 : window_ok 2. Proof. window_tac ders_is_dbasis_2 5%nat. Qed.
 Lemma window_ok_3 : window_ok 3. Proof. window_tac ders_is_dbasis_3 7%nat. Qed.
 Lemma window_ok_4 : window_ok 4. Proof. window_tac ders_is_dbasis_4 9%nat. Qed.
 Lemma window_ok_5 : window_ok 5. Proof. window_tac ders_is_dbasis_5 11%nat. Qed.
+
+(* T3  [B: degrees 1..5; every sorted knot vector (any multiplicities), span, parameter of the span] *)
+Theorem ders_is_dN_deg_le_5 (U : list R) (p span : nat) (u : R) :
+  sortedR U -> (1 <= p <= 5)%nat ->
+  (p <= span)%nat -> (span + p < length U)%nat -> (span + 1 < length U)%nat ->
+  knR U span <= u < knR U (span + 1) ->
+  forall k r, (k <= p)%nat -> (r <= p)%nat ->
+    nth r (nth k (basis_function_ders Rops p U span u p) []) 0
+    = DerivAnalytic.dN (Ufun U) k p (span - p + r) u.
+Proof.
+  intros Hs Hp. assert (Hc : (p = 1 \/ p = 2 \/ p = 3 \/ p = 4 \/ p = 5)%nat) by lia.
+  destruct Hc as [-> | [-> | [-> | [-> | ->]]]].
+  - apply (ders_is_dN_of_window 1 window_ok_1); exact Hs.
+  - apply (ders_is_dN_of_window 2 window_ok_2); exact Hs.
+  - apply (ders_is_dN_of_window 3 window_ok_3); exact Hs.
+  - apply (ders_is_dN_of_window 4 window_ok_4); exact Hs.
+  - apply (ders_is_dN_of_window 5 window_ok_5); exact Hs.
+Qed.
+
+(* the same with the copy of the specification used by BasisOneR (A2.5): A2.3 and A2.5 agree *)
+Corollary ders_is_dN_deg_le_5' (U : list R) (p span : nat) (u : R) :
+  sortedR U -> (1 <= p <= 5)%nat ->
+  (p <= span)%nat -> (span + p < length U)%nat -> (span + 1 < length U)%nat ->
+  knR U span <= u < knR U (span + 1) ->
+  forall k r, (k <= p)%nat -> (r <= p)%nat ->
+    nth r (nth k (basis_function_ders Rops p U span u p) []) 0
+    = BasisOneR.dN (Ufun U) k p (span - p + r) u.
+Proof. intros. rewrite <- dN_same. apply ders_is_dN_deg_le_5; assumption. Qed.
+
+Corollary ders_agrees_with_ders_one_deg_le_5 (U : list R) (p span : nat) (u : R) :
+  sortedR U -> (1 <= p <= 5)%nat ->
+  (p <= span)%nat -> (span + p + 1 < length U)%nat ->
+  knR U span <= u < knR U (span + 1) ->
+  forall k r, (k <= p)%nat -> (r <= p)%nat ->
+    nth r (nth k (basis_function_ders Rops p U span u p) []) 0
+    = nth k (basis_function_ders_one Rops p U (span - p + r) u p) 0.
+Proof.
+  intros Hs Hp Hsp HL Hu k r Hk Hr.
+  rewrite ders_is_dN_deg_le_5' by (try assumption; lia).
+  symmetry. apply ders_one_is_dN; try assumption; lia.
+Qed.
+
+(* ------------------------------------------------------------------------------------------------ *)
+(* T4  each entry of row k of A2.3, as a function of the parameter (span fixed), is the k-th         *)
+(*     analytic derivative of the corresponding Cox-de Boor function on the open span                *)
+Section DersAnalytic.
+Variables (U : list R) (p span : nat).
+Hypothesis Usorted : sortedR U.
+Hypothesis Hp : (1 <= p <= 5)%nat.
+Hypothesis Hsp : (p <= span)%nat.
+Hypothesis HL : (span + p < length U)%nat.
+Hypothesis HL1 : (span + 1 < length U)%nat.
+
+Let Vs := Ufun_sorted U Usorted.
+Let Ek : Ufun U span = knR U span. Proof. apply Ufun_in. lia. Qed.
+Let Ek1 : Ufun U (S span) = knR U (span + 1). Proof. rewrite Ufun_in by lia. f_equal. lia. Qed.
+
+Theorem ders_is_true_derivative_deg_le_5 k r : (k <= p)%nat -> (r <= p)%nat ->
+  kth_deriv_on (knR U span) (knR U (span + 1)) k
+    (fun x => N (Ufun U) p (span - p + r) x)
+    (fun x => nth r (nth k (basis_function_ders Rops p U span x p) []) 0).
+Proof.
+  intros Hk Hr.
+  apply (kth_deriv_on_ext _ _ _ _ (fun x => dNa (Ufun U) k p (span - p + r) x)).
+  - intros x Hx. apply ders_is_dN_deg_le_5; try assumption. lra.
+  - rewrite <- Ek, <- Ek1. apply dN_iterated. exact Vs.
+Qed.
+
+(* one step: row k+1 at u is the (two-sided) derivative at u of row k, u strictly inside the span *)
+Theorem ders_consecutive_rows_deg_le_5 k r u : (S k <= p)%nat -> (r <= p)%nat ->
+  knR U span < u < knR U (span + 1) ->
+  derivable_pt_lim (fun x => nth r (nth k (basis_function_ders Rops p U span x p) []) 0) u
+                   (nth r (nth (S k) (basis_function_ders Rops p U span u p) []) 0).
+Proof.
+  intros Hk Hr Hu.
+  apply (dl_local (fun x => dNa (Ufun U) k p (span - p + r) x) _ (knR U span) (knR U (span + 1)));
+    [exact Hu| |].
+  - intros y Hy. symmetry. apply ders_is_dN_deg_le_5; try assumption; try lia. lra.
+  - rewrite ders_is_dN_deg_le_5 by (try assumption; try lia; lra).
+    apply (dN_is_kth_derivative (Ufun U) Vs span). rewrite Ek, Ek1. exact Hu.
+Qed.
+
+(* right derivative on the half-open span [U_span, U_{span+1}), in particular at the left knot U_span *)
+Theorem ders_right_derivative_deg_le_5 k r u : (S k <= p)%nat -> (r <= p)%nat ->
+  knR U span <= u < knR U (span + 1) ->
+  right_derivable_pt_lim (fun x => nth r (nth k (basis_function_ders Rops p U span x p) []) 0) u
+                         (nth r (nth (S k) (basis_function_ders Rops p U span u p) []) 0).
+Proof.
+  intros Hk Hr Hu.
+  apply (rdl_local (fun x => dNa (Ufun U) k p (span - p + r) x) _ (knR U (span + 1))); [lra| |].
+  - intros y Hy. symmetry. apply ders_is_dN_deg_le_5; try assumption; try lia. lra.
+  - rewrite ders_is_dN_deg_le_5 by (try assumption; lia).
+    apply (dN_right_derivative (Ufun U) Vs span). rewrite Ek, Ek1. exact Hu.
+Qed.
+
+Corollary ders_right_derivative_at_knot_deg_le_5 k r : (S k <= p)%nat -> (r <= p)%nat ->
+  knR U span < knR U (span + 1) ->
+  right_derivable_pt_lim (fun x => nth r (nth k (basis_function_ders Rops p U span x p) []) 0) (knR U span)
+                         (nth r (nth (S k) (basis_function_ders Rops p U span (knR U span) p) []) 0).
+Proof. intros Hk Hr Hne. apply ders_right_derivative_deg_le_5; try assumption. lra. Qed.
+End DersAnalytic.
+
+Check dN_same.
+Check ders_one_is_true_derivative.
+Check ders_one_consecutive_orders.
+Check ders_one_right_derivative.
+Check dbasis_is_dN.
+Check ders_is_dN_of_window.
+Check ders_is_dN_deg_le_5.
+Check ders_agrees_with_ders_one_deg_le_5.
+Check ders_is_true_derivative_deg_le_5.
+Check ders_consecutive_rows_deg_le_5.
+Check ders_right_derivative_deg_le_5.
+Check ders_right_derivative_at_knot_deg_le_5.
+
+Print Assumptions dN_same.
+Print Assumptions ders_one_is_true_derivative.
+Print Assumptions ders_one_consecutive_orders.
+Print Assumptions ders_one_right_derivative.
+Print Assumptions dbasis_is_dN.
+Print Assumptions ders_is_dN_deg_le_5.
+Print Assumptions ders_agrees_with_ders_one_deg_le_5.
+Print Assumptions ders_is_true_derivative_deg_le_5.
+Print Assumptions ders_consecutive_rows_deg_le_5.
+Print Assumptions ders_right_derivative_deg_le_5.
+Print Assumptions ders_right_derivative_at_knot_deg_le_5.
+
+(* sanity (non-vacuity): quadratic, interior knot, first span; the hypotheses are satisfiable *)
+Example ders_rows_sanity : forall u, 0 < u < 1 ->
+  derivable_pt_lim (fun x => nth 1 (nth 0 (basis_function_ders Rops 2 [0; 0; 0; 1; 2; 2; 2] 2 x 2) []) 0) u
+                   (nth 1 (nth 1 (basis_function_ders Rops 2 [0; 0; 0; 1; 2; 2; 2] 2 u 2) []) 0).
+Proof.
+  intros u Hu. apply ders_consecutive_rows_deg_le_5; try (cbn [length]; lia).
+  - intros i j H. cbn [length] in H.
+    do 7 (destruct i as [|i]; [do 7 (destruct j as [|j]; [first [exfalso; lia | cbn [kn nth]; rsimp; lra]|]); exfalso; lia|]).
+    exfalso; lia.
+  - cbn [kn nth Nat.add]. exact Hu.
+Qed.
